@@ -682,5 +682,14 @@ if __name__ == "__main__":
     odest = os.path.join(os.path.dirname(dest), "OverwriteGen.lean")
     if not os.path.exists(odest) or open(odest).read() != otext:
         open(odest, "w").write(otext); changed = True
-    print(json.dumps({"translated": done + sdone + kdone + idone + tdone + odone,
-                      "untranslated": failed + sfailed + kfailed + ifailed + tfailed + ofailed, "changed": changed}, indent=1))
+    import t7, t8, t9, t10
+    more_done, more_failed = [], []
+    for text_done_failed, fname in ((t7.run_eq(root), "T7Gen.lean"), (t8.run_t8(root, done + sdone), "T8Gen.lean"),
+                                    (t9.run_t9(root), "T9Gen.lean"), (t10.run_t10(root), "T10Gen.lean")):
+        xtext, xdone, xfailed = text_done_failed
+        xdest = os.path.join(os.path.dirname(dest), fname)
+        if not os.path.exists(xdest) or open(xdest).read() != xtext:
+            open(xdest, "w").write(xtext); changed = True
+        more_done += xdone; more_failed += xfailed
+    print(json.dumps({"translated": done + sdone + kdone + idone + tdone + odone + more_done,
+                      "untranslated": failed + sfailed + kfailed + ifailed + tfailed + ofailed + more_failed, "changed": changed}, indent=1))
